@@ -97,7 +97,7 @@ def main():
         for r in rows:
             fh.write("| " + " | ".join(str(x).replace("|", "/").replace("\n", " ") for x in r) + " |\n")
     print(f"{len(rows)} mutants indexed; {sum(1 for r in rows if r[2] == 'confirmed')} confirmed; "
-          f"not caught: {[r[0] + '-' + r[1] for r in rows if not str(r[3]).startswith('caught') and r[3] != 'n/a']}")
+          f"not caught: {[r[0] + '-' + r[1] for r in rows if r[2] == 'confirmed' and not str(r[3]).startswith('caught')]}")
 
 
 if __name__ == "__main__":
